@@ -209,41 +209,51 @@ def task_segC(rank, width):
     return task
 
 
-def task_segD(n):
+def task_segD(n, m=None):
+    m = n if m is None else m
+
     def task():
         fl = _mod()
         t0 = time.time()
         X.reset()
-        name = f"find_layer.segD[n={n}]"
+        name = f"find_layer.segD[n={n},m={m}]"
         node, _ = I.func_ast(fl.find_local_clifford_layer)
         loops = [x for x in ast.walk(node) if isinstance(x, (ast.For, ast.While))]
         loops.sort(key=lambda x: (x.lineno, x.col_offset))
         ordn = [k for k, lp in enumerate(loops) if isinstance(lp, ast.For) and ast.unparse(lp.iter) == "cc"]
         if len(ordn) != 1:
             return [_rec(name, "unknown", "pyvc", 0, "structure drift: loop `for row in cc` not found")], {}
-        r = _prefix_env(fl.find_local_clifford_layer, [S.fresh_bits("r", (n, 1)), S.fresh_bits("s", (n, 1)), mk_graph(n)], _is_assign_to("cs"))
+        # environment at the loop: everything the set-up segment defines (n, m, p, cs, gamma, R, S, ...) plus a symbolic row
+        r = _prefix_env(fl.find_local_clifford_layer, [S.fresh_bits("r", (n, m)), S.fresh_bits("s", (n, m)), mk_graph(n)],
+                        _is_assign_to("Rs", lambda st: "transpose" in ast.unparse(st.value)))
         if r is None:
-            return [_rec(name, "unknown", "pyvc", 0, "structure drift: `cs = [...]` not found")], {}
+            return [_rec(name, "unknown", "pyvc", 0, "structure drift: set-up segment not found")], {}
         _, env0, _ = r
+        if "cs" not in env0 or "n" not in env0:
+            return [_rec(name, "unknown", "pyvc", 0, "structure drift: `cs` / `n` not defined by the set-up segment")], {}
         cs = env0["cs"]
         row = S.fresh_bits("w", (4 * n,))
         it = I.Interp()
         loop = loops[ordn[0]]
-        fr = I.Frame({"n": n, "cs": cs, "row": row, "np": np}, fl.find_local_clifford_layer.__globals__, fname="find_local_clifford_layer")
+        env = dict(env0)
+        env["row"] = row
+        fr = I.Frame(env, fl.find_local_clifford_layer.__globals__, fname="find_local_clifford_layer")
         try:
             flow = it.block(loop.body, fr, True)
         except S.Unsupported as e:
             return [_rec(name, "unknown", "pyvc", 0, f"unsupported: {e}")], {}
+        except NameError as e:
+            return [_rec(name, "unknown", "pyvc", 0, f"structure drift: the loop body reads a variable that the set-up segment does not define: {e}")], {}
         csl = cs.plain() if isinstance(cs, GList) else cs
         blocks = spec_blocks(row, csl, n)
         valid = X.And(*[X.Xor(X.And(b[0], b[3]), X.And(b[1], b[2])) for b in blocks])
         recs = []
         v = X.prove([], X.Iff(flow.ret, valid), timeout_s=60)
-        recs.append(_rec(f"find_layer.segD.returns_iff_all_blocks_invertible[n={n}]", v.status, v.backend, v.time, v.info,
+        recs.append(_rec(f"find_layer.segD.returns_iff_all_blocks_invertible[n={n},m={m}]", v.status, v.backend, v.time, v.info,
                          None if v.status != "refuted" else {"row": S.concretize(row, v.model or {}).tolist()}, None))
         exc = X.Or(*[x.guard for x in it.raised])
         v = X.prove([], X.Not(exc))
-        recs.append(_rec(f"find_layer.segD.noraise[n={n}]", v.status, v.backend, v.time, v.info))
+        recs.append(_rec(f"find_layer.segD.noraise[n={n},m={m}]", v.status, v.backend, v.time, v.info))
         # returned value = A(row)
         goal = []
         for gd, val in fr.rets:
@@ -258,9 +268,9 @@ def task_segD(n):
                         want = blocks[i][e] if i == j else False
                         goal.append(X.Implies(gd, X.Iff(L.bit(val[e][i, j]), want)))
         v = X.prove([], X.And(*goal), timeout_s=60)
-        recs.append(_rec(f"find_layer.segD.result_blocks[n={n}]", v.status, v.backend, v.time, v.info))
+        recs.append(_rec(f"find_layer.segD.result_blocks[n={n},m={m}]", v.status, v.backend, v.time, v.info))
         cont_ok = X.prove([], X.Iff(X.Or(flow.normal, *[c for c, _ in flow.cnt]), X.Not(valid)))
-        recs.append(_rec(f"find_layer.segD.continues_otherwise[n={n}]", cont_ok.status, cont_ok.backend, cont_ok.time, cont_ok.info))
+        recs.append(_rec(f"find_layer.segD.continues_otherwise[n={n},m={m}]", cont_ok.status, cont_ok.backend, cont_ok.time, cont_ok.info))
         # canary: "returns for every row" must be refuted
         cv = X.prove([], flow.ret)
         return recs, {"t": round(time.time() - t0, 3), "stmts": it.stats["stmts"], "canary": "refuted+replayed" if cv.status == "refuted" else f"NOT-REFUTED({cv.status})"}
